@@ -371,8 +371,10 @@ class KnotVector(Intface_KnotVector):
         (Fraction(0, 1), Fraction(0, 1), Fraction(1, 2), Fraction(1, 1), Fraction(1, 1))
 
         """
-        self.shift(-self[0])
-        self.scale(1 / self[-1])
+        umin, umax = self[0], self[-1]
+        denom = umax - umin
+        vector = tuple((knoti - umin) / denom for knoti in self)
+        self.internal = ImmutableKnotVector(vector)
         return self
 
     def insert(self, nodes: Tuple[float]) -> KnotVector:
